@@ -1290,6 +1290,11 @@ class ChoicePayloadDecoder(ConstructedPayloadDecoderBase):
             if not isTagged or component is eoo.endOfOctets:
                 break
 
+        if not asn1Object.isValue:
+            raise error.PyAsn1Error(
+                'No alternative of %s found in indefinite-length encoding' % (
+                    asn1Object.__class__.__name__,))
+
         yield asn1Object
 
 
